@@ -18,7 +18,7 @@ Definition msg_eqb (a b : msg) : bool :=
   | _, _ => false
   end.
 
-Inductive exn := ECancel (m : msg) | ETimeout | EAssert.
+Inductive exn := ECancel (m : msg) | ETimeout | EAssert.   (* EAssert: any other exception (class code 3) *)
 
 Inductive skind := KMoveOn | KTimeout.          (* move_on_after / open_cancel_scope  vs  timeout() *)
 Inductive ckind := CCancel | CTimeout | CAll.   (* what a try/except of the program catches *)
@@ -27,6 +27,7 @@ Inductive prog :=
 | PSkip
 | PSeq (p q : prog)
 | PSleep (id d : nat)                 (* await backend.sleep(d); d = 0 is a bare yield *)
+| PFail (id d : nat)                  (* await a future that FAILS (set_exception, not a cancellation) after d ticks *)
 | PCheckpoint (id : nat)              (* await backend.coro_yield() *)
 | PShYield (id : nat)                 (* await backend.cancel_shielded_coro_yield() *)
 | PBlock (d : nat)                    (* synchronous work: the clock advances by d, nothing is yielded *)
@@ -48,7 +49,8 @@ Inductive event :=
 | EvExt (t n : nat) (sh : bool)                  (* the controller's task.cancel() returned True at time t; n = number of
                                                     active scopes whose cancel() had already been called at that moment;
                                                     sh = the task was inside ignore_cancellation / a shielded yield *)
-| EvCancel (id t : nat).                         (* the program called cancel() on the scope opened by statement id *)
+| EvCancel (id t : nat)                          (* the program called cancel() on the scope opened by statement id *)
+| EvResched (id t : nat) (dl : option nat).      (* ... called reschedule(dl) on it (None = math.inf) *)
 
 Definition exn_code (e : exn) : nat := match e with ECancel _ => 1 | ETimeout => 2 | EAssert => 3 end.
 Definition oexn_code (e : option exn) : nat := match e with None => 0 | Some e => exn_code e end.
@@ -67,7 +69,7 @@ Inductive frame :=
 | FWait (w : wait).
 
 (* ---- futures, handles, timers, scopes *)
-Inductive fstate := FPend | FRes | FCanc (m : msg).
+Inductive fstate := FPend | FRes | FCanc (m : msg) | FExc.   (* FExc: done with an exception *)
 Inductive cb := CbWake | CbInner (outer : nat) | CbOuter (inner : nat).
 Definition cb_eqb (a b : cb) : bool :=
   match a, b with
@@ -82,6 +84,7 @@ Inductive hkind :=
 | HStep                       (* task.__step() after a bare yield / task creation *)
 | HFutCb (f : nat) (c : cb)   (* a future's done callback *)
 | HSetRes (f : nat)           (* futures._set_result_unless_cancelled (asyncio.sleep's timer) *)
+| HSetExc (f : nat)           (* the timer of a failing future: set_exception unless done *)
 | HScopeCancel (s : nat)      (* CancelScope.cancel from the timeout handle *)
 | HDeliver (s : nat)          (* CancelScope.__deliver_cancellation *)
 | HDelayedCancel (m : msg)    (* CancelScope.__cancel_task_unless_done(task, msg) *)
@@ -497,25 +500,40 @@ Fixpoint yield_out (k : list frame) (y : yv) (st : state) : state * list frame *
 Definition cancel_msg_of (v : option exn) (last : option msg) : option msg :=
   match v with Some (ECancel m) => Some m | _ => last end.
 
+(* the tail of one turn of the driver's loop: re-issue the swallowed cancellation, then resume the inner coroutine with
+   coroutine.send(None) (thr = None) or coroutine.throw(exc_to_throw) *)
+Definition shield_proceed (st : state) (id : nat) (last : option msg) (outer : list frame) (thr : option exn)
+                          : state * list frame * resume :=
+  match last with
+  | Some m =>
+      let '(st, ok) := reschedule_delayed st m in
+      if ok then (st, FShield id ShRun None true :: outer, RDeliver thr)
+      else (set_g_abort st true, outer, RAbort)
+  | None => (st, FShield id ShRun None true :: outer, RDeliver thr)
+  end.
+
+(* exc_to_throw when the awaited inner future is done: its exception, if it failed *)
+Definition fut_exc (st : state) (f : nat) : option exn :=
+  match f_st (get_fut st f) with FExc => Some EAssert | _ => None end.
+
 (* what one driver does when its own yield point is resumed with v *)
 Definition shield_resume (st : state) (id : nat) (w : shwait) (last : option msg) (v : option exn)
                          (outer : list frame) : state * list frame * resume :=
   let last := cancel_msg_of v last in
-  let proceed (st : state) :=
-    match last with
-    | Some m =>
-        let '(st, ok) := reschedule_delayed st m in
-        if ok then (st, FShield id ShRun None true :: outer, RDeliver None)
-        else (set_g_abort st true, outer, RAbort)
-    | None => (st, FShield id ShRun None true :: outer, RDeliver None)
-    end in
   match w with
   | ShFut f _ =>
-      if fut_done st f then proceed st
-      else let '(st, o) := mk_shield st f in
-           let '(st, outer', y') := yield_out outer (YFut o) st in
-           (st, FShield id (ShFut f o) last true :: outer', RYield y')
-  | _ => proceed st
+      match v with
+      | Some ETimeout | Some EAssert =>
+          (* `yield from asyncio.shield(to_yield)` raised something else than CancelledError (the inner future
+             failed): the generic handler makes it exc_to_throw *)
+          shield_proceed st id last outer v
+      | _ =>
+          if fut_done st f then shield_proceed st id last outer (fut_exc st f)    (* to_yield.result() *)
+          else let '(st, o) := mk_shield st f in
+               let '(st, outer', y') := yield_out outer (YFut o) st in
+               (st, FShield id (ShFut f o) last true :: outer', RYield y')
+      end
+  | _ => shield_proceed st id last outer (match v with Some (ECancel _) => None | _ => v end)
   end.
 
 (* Task.__step(v): the value enters at the outermost suspended driver and works its way inwards *)
@@ -585,6 +603,11 @@ Definition exec (st : state) (p : prog) : state :=
       let '(st, f) := new_fut st in
       let '(st, h) := call_at st (time st + d) (HSetRes f) in
       do_yield st (WSleep id f h) (YFut f)
+  | PFail id d =>
+      let st := emit st (EvStart id (time st)) in
+      let '(st, f) := new_fut st in
+      let '(st, h) := call_at st (time st + d) (HSetExc f) in
+      do_yield st (WSleep id f h) (YFut f)
   | PCheckpoint id => do_yield (emit st (EvStart id (time st))) (WYield id) YNone
   | PShYield id => do_yield (emit st (EvStart id (time st))) (WShYield id) YNone
   | PBlock d => set_md (set_time st (time st + d)) (MRun CRet)
@@ -604,7 +627,10 @@ Definition exec (st : state) (p : prog) : state :=
       set_md st (MRun CRet)
   | PResched k d =>
       let when := match d with Some d => Some (time st + d) | None => None end in
-      let st := match nth_scope st k with Some sid => scope_reschedule st sid when | None => st end in
+      let st := match nth_scope st k with
+                | Some sid => emit (scope_reschedule st sid when) (EvResched (scope_node (frames st) sid) (time st) when)
+                | None => st
+                end in
       set_md st (MRun CRet)
   | PCatch id c body => set_md (push st (FCatch id c)) (MRun (CExec body))
   end.
@@ -730,12 +756,13 @@ Definition task_step (st : state) (v : option exn) : state :=
 Definition run_cb (st : state) (f : nat) (c : cb) : state :=
   match c with
   | CbWake =>
-      task_step st (match f_st (get_fut st f) with FCanc m => Some (ECancel m) | _ => None end)
+      task_step st (match f_st (get_fut st f) with FCanc m => Some (ECancel m) | FExc => Some EAssert | _ => None end)
   | CbInner outer =>
       match f_st (get_fut st outer) with
       | FCanc _ => st
       | _ => match f_st (get_fut st f) with
              | FCanc _ => fst (fut_cancel st outer None)
+             | FExc => fst (fut_finish st outer FExc)
              | _ => fut_set_result st outer
              end
       end
@@ -757,6 +784,7 @@ Definition run_handle (st : state) (k : hkind) : state :=
   | HStep => task_step st None
   | HFutCb f c => run_cb st f c
   | HSetRes f => match f_st (get_fut st f) with FCanc _ => st | _ => fut_set_result st f end
+  | HSetExc f => fst (fut_finish st f FExc)
   | HScopeCancel s => scope_cancel st s
   | HDeliver s => deliver st s
   | HDelayedCancel m => if task_done st then st else task_cancel (task_uncancel st) m
